@@ -221,10 +221,57 @@ func (s rStep) String() string {
 	return s.Kind
 }
 
+// runR: one generated history -- or, in the crash-point enumeration mode, one history re-executed once per crash
+// point of one of its invocations (killed at the k-th scheduling point inside the cache code, k = 1, 2, ... until
+// the invocation ends before the k-th point).
 func runR(t *testing.T, ch *vs.Choices, prop, tier string, render bool) *vs.RunOut {
+	p := genR(ch, tier)
+	if ch.Bool(1, 4) {
+		ci := -1
+		for i, s := range p.Steps {
+			if s.Kind == "crash" {
+				ci = i
+				break
+			}
+		}
+		if ci < 0 {
+			for i, s := range p.Steps {
+				if s.Kind == "run" {
+					p.Steps[i].Kind = "crash"
+					ci = i
+					break
+				}
+			}
+		}
+		if ci >= 0 {
+			maxN := 40
+			if tier == "thorough" {
+				maxN = 150
+			}
+			var agg *vs.RunOut
+			for n := 1; n <= maxN; n++ {
+				p.Steps[ci].CrashN = n
+				o := runROne(t, ch, prop, tier, render, p)
+				fired := o.Reach["fault:crash@cachewrite"] > 0
+				if fired {
+					o.Hit("fault_enumeration:crash_point")
+				}
+				agg = mergeRunOut(agg, o)
+				if !fired {
+					agg.Hit("fault_enumeration:histories_exhausted")
+					break
+				}
+			}
+			agg.Hit("fault_enumeration:histories")
+			return agg
+		}
+	}
+	return runROne(t, ch, prop, tier, render, p)
+}
+
+func runROne(t *testing.T, ch *vs.Choices, prop, tier string, render bool, p *rProg) *vs.RunOut {
 	out := &vs.RunOut{Reach: map[string]int{}}
 	experiments.RemoteTaskfiles = experiments.Experiment{Name: "REMOTE_TASKFILES", AllowedValues: []int{1}, Value: 1}
-	p := genR(ch, tier)
 	var hs []string
 	for _, s := range p.Steps {
 		hs = append(hs, s.String())
